@@ -60,7 +60,8 @@ def deep_state(t):
 
 KEYS = st.sampled_from(['a', 'b', 'c', 'd', None])
 UID = st.integers(0, 12)
-TAGS = st.one_of(st.none(), st.lists(st.sampled_from(['x', 'y', 'z']), max_size=3, unique=True))
+TAGS = st.one_of(st.none(), st.lists(st.sampled_from(['x', 'y', 'z']), max_size=3, unique=True),
+                st.lists(st.sampled_from(['x', 'y']), min_size=2, max_size=3))  # (a key may be listed more than once)
 UALT = st.one_of(st.none(), st.integers(100, 108))
 MISSING = st.lists(st.sampled_from(['opt', 'tags', 'grp']), max_size=1)
 
